@@ -12,8 +12,6 @@ package main
 import (
 	"fmt"
 	"hash/fnv"
-	"os"
-	"strings"
 	"sync/atomic"
 
 	"verif/mc"
@@ -369,15 +367,11 @@ func main() {
 		chk.Finish()
 	}
 	prepare()
-	only := os.Getenv("C11_ONLY")
-	for _, r := range []struct {
-		k string
-		f func()
-	}{{"e", runHighLevel}, {"b", runDecode}, {"c", runDamage}, {"d", runModeMessage}, {"a", runReader}} {
-		if only == "" || strings.Contains(only, r.k) {
-			r.f()
-		}
-	}
+	runHighLevel() // first: later sub-spaces attribute failures of mixed texts to failing driver scripts
+	runDecode()
+	runDamage()
+	runModeMessage()
+	runReader()
 	chk.Finish()
 }
 
